@@ -82,13 +82,50 @@ def run(ctx):
             violations.append({"what": "when %s fails with %s during a lookup, the returned handle is at offset %s, opened %s" % (call, er, d.get("off"), d.get("acc")),
                                "classification": {"kind": "offset-under-fault", "call": call},
                                "replay": {"kind": "fault", "scenario": L, "fault_seq": seq, "errno": er, "result": impl.results[1][1]}})
+    # a path-based set / put whose preparation of the value file (re-stamp, chmod) or first
+    # publication fails once: if the call still reports success, whatever is visible under the
+    # key name has no write bit
+    KEYP = ("kk", 7, 9)
+    pjobs = []
+    for w in (("plain", 300), ("sharded", 4, 1200)):
+        for opn in ("set", "put"):
+            L = G.header(w, (), "none") + [G.NOFIRE, "snap", G.op(0, opn, KEYP, "V", 1), "snap"]
+            clean = S.run_impl(L)
+            if not clean.steps:
+                continue
+            st0 = clean.steps[0]
+            can, seqs = T.canon(st0["events"], with_seq=True)
+            nstage = len(T.canon(st0["events"][:st0["staged_at"]]))
+            for k in range(nstage, len(can)):
+                if can[k][0] in ("open", "stat", "futimens", "chmod", "rename", "link", "close"):
+                    pjobs.append((w, opn, L, seqs[k], k, can[k][0]))
+    for w, opn, L, seq, k, call in pjobs:
+        try:
+            impl = S.run_impl(L, fault=(seq, "EIO"))
+            model = S.run_model(S.augment(L, impl, fault_by_step={1: (k, "EIO")}))
+            diffs = S.compare(L, impl, model, what=("result", "trace"))
+        except Exception as ex:
+            impl, diffs = None, ["EXCEPTION " + repr(ex)]
+        if diffs:
+            ties.append({"what": "model and implementation disagree (%s with %s failing once)" % (opn, call), "case": str((w, opn)), "detail": diffs[:3]})
+        else:
+            agree += 1
+        if impl is None or not impl.snaps:
+            continue
+        nontriv += 1
+        for l in impl.snaps[-1]:
+            f = l.split(" ")
+            if f[1] == "f" and f[0].startswith("w/") and ".kismet_temp" not in f[0] and int(f[2], 8) & 0o222:
+                violations.append({"what": "after a %s whose %s failed once (EIO), entry %s is visible with write permission (mode %s)" % (opn, call, f[0], f[2]),
+                                   "classification": {"kind": "writable-under-fault", "op": opn, "call": call},
+                                   "replay": {"kind": "fault", "scenario": L, "fault_seq": seq, "errno": "EIO"}})
     seen, uniq = set(), []
     for v in violations:
         k = tuple(sorted(v["classification"].items()))
         if k not in seen:
             seen.add(k); uniq.append(v)
-    cov = {"evaluations": len(res) + len(fres), "distinct_nontrivial": nontriv, "lookup_fault_runs": len(fres),
-           "rule": "the C13/C14 matrix (all hit locations, actions, checker none/byte-equality with a judge that reads one byte, populate outcomes, plus ensure/set_temp_file/put_temp_file) under umask 022 (full) and 000/077 (%s): fcntl(F_GETFL) and lseek(SEEK_CUR) of every returned handle, st_mode of every entry visible in the write cache; plus lookups (get, read-only get, get_or_update Accept / Promote) of a not-yet-marked 5000-byte hit with each bookkeeping call (fstat, futimens, seek) failing with EPERM / EIO: offset and access mode of the handle. Non-trivial = >=2 levels hold the key or a get_or_update/ensure." % ("sampled 1/5 in the quick tier" if ctx.quick() else "full"),
+    cov = {"evaluations": len(res) + len(fres) + len(pjobs), "distinct_nontrivial": nontriv, "lookup_fault_runs": len(fres),
+           "rule": "the C13/C14 matrix (all hit locations, actions, checker none/byte-equality with a judge that reads one byte, populate outcomes, plus ensure/set_temp_file/put_temp_file) under umask 022 (full) and 000/077 (%s): fcntl(F_GETFL) and lseek(SEEK_CUR) of every returned handle, st_mode of every entry visible in the write cache; plus lookups (get, read-only get, get_or_update Accept / Promote) of a not-yet-marked 5000-byte hit with each bookkeeping call (fstat, futimens, seek) failing with EPERM / EIO: offset and access mode of the handle; plus path-based set / put with each preparation / publication call failing once (EIO): no visible entry carries a write bit. Non-trivial = >=2 levels hold the key or a get_or_update/ensure." % ("sampled 1/5 in the quick tier" if ctx.quick() else "full"),
            "samples": samples, "traces_validated_against_impl": agree}
     if not ctx.quick():
         rc, o = C.coqchk(PROPS)
